@@ -55,6 +55,14 @@ CHECKS = {
    technique="rapid-generated clean workflows (optionally with seeded sibling errors) x every mapping x {foreign key, duplicate key, removed mandatory key, removal next to a misplaced sibling}; expected report positions from the position-recording emitter and the section model",
    text="For every mapping of generated workflows, insertion of a foreign key (fresh, from another section, letter-case variant), duplication of a key (also in other letter case for case-insensitive user-named mappings) and removal of each mandatory key are applied; the model predicts a syntax-check diagnostic at the key (item for schedule), at the repetition, or a new diagnostic for the removal, and all diagnostics of the base must survive.",
    design="DESIGN.md section 5, C13"),
+ "C14": dict(
+   technique="complete enumeration of the bundled popular-actions table + rapid-generated local actions and local reusable workflows in temporary repositories; expected diagnostic set computed from the generated/exported interface; callee linted alone and together with the caller in both orders",
+   text="Call sites (random subsets of declared names in random case and order, undeclared names, dropped required names, typed values, output references) against every bundled action spec and against generated well-formed local actions and reusable workflows; the set of {undefined input/secret, missing required, undefined output, unassignable typed value} diagnostics with their lines must equal the set computed from the interface, for both interface derivations (file and in-memory AST).",
+   design="DESIGN.md section 5, C14"),
+ "C16": dict(
+   technique="rapid generation of (line, column, source) triples for the snippet renderer with a reference rendering; rapid-generated workflows echoing hostile strings rendered in five output modes, round-tripped through the shipped problem-matcher regexp and JSON",
+   text="Renderer in isolation over arbitrary positions and byte sources (never panics, header exact, snippet is the referenced line, caret at the display cell of the column, nothing for missing lines) and end-to-end over workflows whose user-controlled strings are hostile: one line per diagnostic, shipped matcher regexp parses each line back to the same fields, default mode equals a reference rendering, JSON round-trips, no line breaks in messages.",
+   design="DESIGN.md section 5, C16"),
  "C17": dict(
    technique="exhaustive enumeration of strings <=5 (6) characters over a 19-character alphabet + rapid random longer strings against a three-valued reference validator; implication, column and named-character invariants; sampled through the linter",
    text="All short strings over the special/ordinary/ref-forbidden/whitespace/control/non-ASCII representatives are validated as ref and as path filter and compared with a reference validator written from the filter-pattern cheat sheet and git's ref character rules (strings the documentation leaves open are not compared); ref-accept implies path-accept, columns lie in the pattern on the character the message names, and linter positions equal scalar start + column.",
